@@ -256,4 +256,70 @@ theorem coarseBands_sync {w : World} {P0 : List Op} (cfg : EncCfg) (prob : List 
     | oob => rw [h1] at he; cases he
     | abort => rw [h1] at he; cases he
 
+/-- **Where the encoder's own energy state can leave the decoder's.**  The value the encoder keeps (`q`, which goes
+    into its `oldEBands`/`error`) equals the value the written symbol means (`qd`, what the decoder reconstructs) in
+    every branch of `quant_coarse_energy_impl` except one: the one-bit fall-back (`budget - tell == 1`) at the first
+    band (`i == start`, the only band the `bits_left < 16` clamp to `[-1, 1]` skips) with a kept value below `-1`;
+    the decoder then has `-1`. -/
+theorem coarse_state_agrees_except_one_bit_start (cfg : EncCfg) (prob : List Nat) (budget : Int) (i : Nat) (s : St)
+    (q qd : Int) (s' : St) (hi : i ≤ cfg.end_) (h : encCoarseOne cfg prob budget i s = .ok (q, qd, s')) :
+    q = qd ∨ (i = cfg.start ∧ budget - tell s.e = 1 ∧ q < -1 ∧ qd = -1) := by
+  unfold encCoarseOne at h
+  simp only [] at h
+  split at h
+  · rename_i hb1
+    split at h
+    · split at h
+      · injection h with h; injection h with h1 h; injection h with h2 _
+        left; rw [← h1, ← h2]
+      · cases h
+    · rename_i hb15
+      split at h
+      · injection h with h; injection h with h1 h; injection h with h2 _
+        left; rw [← h1, ← h2]
+      · rename_i hb2
+        injection h with h; injection h with h1 h; injection h with h2 _
+        have hbt : budget - tell s.e = 1 := by omega
+        by_cases his : i = cfg.start
+        · by_cases hq : q < -1
+          · right
+            refine ⟨his, hbt, hq, ?_⟩
+            rw [← h2, if_pos (by rw [h1]; omega)]
+          · left
+            rw [← h2]
+            have hq0 : q ≤ 0 := by rw [← h1]; exact Int.min_le_left _ _
+            by_cases hz : q = 0
+            · rw [h1, if_neg (by simp [hz])]; exact hz
+            · rw [h1, if_pos hz]; omega
+        · left
+          have hm : (0 : Int) ≤ 3 * cfg.C * ((cfg.end_ : Int) - i) :=
+            Int.mul_nonneg (by omega) (by omega)
+          rw [h1] at h2
+          generalize 3 * (cfg.C : Int) * ((cfg.end_ : Int) - i) = m at *
+          have hq1 : (-1 : Int) ≤ (if i ≠ cfg.start ∧ budget - tell s.e - m < 30 then
+                if budget - tell s.e - m < 16 then
+                  max (-1) (if budget - tell s.e - m < 24 then min 1 s.pop.fst else s.pop.fst)
+                else if budget - tell s.e - m < 24 then min 1 s.pop.fst else s.pop.fst
+              else s.pop.fst) := by
+            rw [if_pos (by refine ⟨his, ?_⟩; omega), if_pos (by omega)]
+            exact Int.le_max_left _ _
+          generalize (if i ≠ cfg.start ∧ budget - tell s.e - m < 30 then
+                if budget - tell s.e - m < 16 then
+                  max (-1) (if budget - tell s.e - m < 24 then min 1 s.pop.fst else s.pop.fst)
+                else if budget - tell s.e - m < 24 then min 1 s.pop.fst else s.pop.fst
+              else s.pop.fst) = q1 at *
+          have hq2 : (-1 : Int) ≤ (if cfg.lfe = true ∧ i ≥ 2 then min q1 0 else q1) := by
+            split
+            · exact Int.le_min.mpr ⟨hq1, by omega⟩
+            · exact hq1
+          generalize (if cfg.lfe = true ∧ i ≥ 2 then min q1 0 else q1) = q2 at *
+          have hq0 : q ≤ 0 := by rw [← h1]; exact Int.min_le_left _ _
+          have hqm : -1 ≤ q := by rw [← h1]; exact Int.le_min.mpr ⟨by omega, hq2⟩
+          rw [← h2]
+          by_cases hz : q = 0
+          · rw [if_neg (by simp [hz])]; exact hz
+          · rw [if_pos hz]; omega
+  · injection h with h; injection h with h1 h; injection h with h2 _
+    left; rw [← h1, ← h2]
+
 end OpusProofs.CeltHdr
